@@ -195,6 +195,18 @@ func (x *Exec) onStack(st *State, fn *ssa.Function) bool {
 
 func (x *Exec) dispatch(st *State, fr *Frame, c *callCtx) {
 	fn := c.fn
+	if x.contract != nil && x.contract.Directives["site"] != nil && len(st.frames) > 0 && fr == st.frames[0] {
+		bind := map[string]TV{}
+		for i, p := range fn.Params {
+			if i < len(c.args) {
+				bind[p.Name()] = TV{c.args[i], p.Type()}
+			}
+		}
+		x.siteAsserts(st, fr, "call", fn.Name(), bind)
+		if st.dead {
+			return
+		}
+	}
 	if in, ok := x.lookupIntrinsic(c.name); ok {
 		x.usedIntrinsic(c.name)
 		in(x, st, fr, c)
@@ -203,7 +215,8 @@ func (x *Exec) dispatch(st *State, fr *Frame, c *callCtx) {
 	key := x.prog.funcKey(fn)
 	contract := x.prog.contracts.byKey[key]
 	recursive := x.onStack(st, fn)
-	if contract != nil && (recursive || contract.Directives["opaque"] != nil || x.forceContract[key]) {
+	useAll := x.contract != nil && x.contract.Directives["use-contracts"] != nil && len(st.frames) == 1
+	if contract != nil && (recursive || contract.Directives["opaque"] != nil || x.forceContract[key] || useAll) {
 		x.applyContract(st, fr, c, contract)
 		return
 	}
@@ -267,14 +280,33 @@ func (x *Exec) applyContract(st *State, fr *Frame, c *callCtx, ct *Contract) {
 	fn := c.fn
 	env := x.specEnvFor(st, fn, c.args, nil, nil)
 	x.extendEnv(env, st, fr)
+	assumeReq := x.contract != nil && x.contract.Directives["assume-callee-requires"] != nil
 	for _, cl := range ct.Requires {
 		t, err := env.EvalBool(cl.Text)
 		if err != nil {
 			x.unsupported(st, err.Error())
 			return
 		}
-		x.oblige(st, "requires", fmt.Sprintf("precondition of %s: %s", c.name, cl.Text), t, c.common.Pos(), ct.clauseProps(cl))
+		if !assumeReq {
+			x.oblige(st, "requires", fmt.Sprintf("precondition of %s: %s", c.name, cl.Text), t, c.common.Pos(), ct.clauseProps(cl))
+		}
 		st.assume(t)
+	}
+	// prepared-statement bindings of the callee: the statement passed must carry that SQL text
+	for _, d := range ct.Directives["stmt"] {
+		parts := strings.Fields(d)
+		if len(parts) != 2 {
+			continue
+		}
+		for i, p := range fn.Params {
+			if p.Name() != parts[0] || i >= len(c.args) {
+				continue
+			}
+			want, _ := x.prog.constString(fn.Pkg.Pkg.Path(), parts[1])
+			so := x.stmtOf(st, c.args[i])
+			ok := so != nil && so.Text == want
+			x.oblige(st, "stmt-binding", fmt.Sprintf("%s is called with the statement prepared from %s", c.name, parts[1]), BoolLit(ok), c.common.Pos(), ct.Props)
+		}
 	}
 	heap0 := make(map[int]Value, len(st.heap))
 	for k, v := range st.heap {
@@ -306,6 +338,22 @@ func (x *Exec) applyContract(st *State, fr *Frame, c *callCtx, ct *Contract) {
 		rv = results[0]
 	} else if len(results) > 1 {
 		rv = VTuple{results}
+	}
+	// "logs <name>": the ghost transaction log records whether the call succeeded
+	if lg := ct.Directives["logs"]; lg != nil && st.ghost != nil && st.ghost.db != nil && len(results) > 0 {
+		if ev, ok := results[len(results)-1].(VIface); ok {
+			name := strings.TrimSpace(lg[0])
+			ts, fs := x.fork(st, ev.Nil, name+" succeeds")
+			if ts != nil {
+				ts.ghost.db.txLog = append(append([]string(nil), ts.ghost.db.txLog...), name+"-ok")
+				x.completeCall(ts, c, rv)
+			}
+			if fs != nil {
+				fs.ghost.db.txLog = append(append([]string(nil), fs.ghost.db.txLog...), name+"-err")
+				x.completeCall(fs, c, rv)
+			}
+			return
+		}
 	}
 	x.finish(st, fr, c, rv)
 }
